@@ -7,7 +7,17 @@ def run(ctx):
     ctx.design("SamplerLaw", "SamplerLaw_quick.cfg", constants="all weight vectors len <= 2, sum <= 2, every draw order with repetitions", coverage=False)
     ctx.design("Alias", f"Alias_{t}.cfg", constants="Vose construction (two LIFO stacks, both leftover loops), all weight vectors", coverage=False)
     ctx.design("Bst", f"Bst_{t}.cfg", constants="implicit-heap cumulative tree for every length, all weight vectors", coverage=False)
+    # the inversion sampler and the enumeration it drives, as written: every history of draws x admissibility patterns
+    # with gaps x storage caps; the pinned restart rule (before c8e8b57) must violate the law
+    ctx.design("MC_Inversion", f"Inversion_{t}.cfg", constants="admissibility patterns len 2..5, 3 weight tables, caps 1..4, all draw histories", coverage=False)
+    r = ctx.design("MC_Inversion", "Inversion_pinned.cfg", constants="pinned: skip pointer reset to -1 at the storage cap",
+                   expect_violations=("LawOK", "PrefixOK"), coverage=False)
+    if not r.inv_violations:
+        ctx.note("model self-test failed: Inversion pinned")
     ctx.exhaustive = True
+    ti = ctx.trace_path("inversion")
+    ctx.drive("inversion_run", [ti, ctx.tier, ctx.seed])
+    ctx.validate("Trace_Inversion", "Trace_Inversion.cfg", ti)
     tf = ctx.trace_path("samplers")
     ctx.drive("sampler_run", [tf, ctx.tier, ctx.seed])
     ctx.validate("Trace_Sampler", "Trace_Sampler.cfg", tf)
